@@ -94,4 +94,4 @@ pub fn yield_now() {
 
 #[cfg(kani)]
 #[path = "/verif/harness/may/yield_now.rs"]
-mod verif_kani;
+pub(crate) mod verif_kani;
